@@ -103,12 +103,17 @@ def gen_3(ctx, rep):
                  and isinstance(n.ast.value, ast.Constant) and n.ast.value.value is True]
     other = eq.params()[1] if len(eq.params()) > 1 else 'other'
 
+    from ..model import xnorm as _xn
+
+    def xn(e):
+        return _xn(eq.node, e)
+
     def final_test(e):
-        return isinstance(e, ast.Compare) and len(e.ops) == 1 and {norm(e.left), norm(e.comparators[0])} == \
+        return isinstance(e, ast.Compare) and len(e.ops) == 1 and {xn(e.left), xn(e.comparators[0])} == \
             {'self.is_final', '%s.is_final' % other}
 
     def len_test(e):
-        return isinstance(e, ast.Compare) and len(e.ops) == 1 and {norm(e.left), norm(e.comparators[0])} == \
+        return isinstance(e, ast.Compare) and len(e.ops) == 1 and {xn(e.left), xn(e.comparators[0])} == \
             {'len(self.arcs)', 'len(%s.arcs)' % other}
     for r in rets_true:
         t1 = [n for n in cfg.nodes if n.kind == 'test' and final_test(n.ast)]
@@ -118,12 +123,12 @@ def gen_3(ctx, rep):
         lab2 = 'F' if t2 and isinstance(t2[0].ast.ops[0], ast.NotEq) else 'T'
         ok2 = only_via(cfg, r, len_test, lab2)
         # arcs loop: a for over self.arcs.items() whose body returns False when targets differ, and `return True` after it
-        loops = [n for n in walk_own(eq.node) if isinstance(n, ast.For) and 'arcs.items()' in norm(n.iter)]
+        loops = [n for n in walk_own(eq.node) if isinstance(n, ast.For) and 'arcs.items()' in xn(n.iter)]
         ok3 = False
         for lp in loops:
             for s in ast.walk(lp):
                 if isinstance(s, ast.If) and isinstance(s.test, ast.Compare) and isinstance(s.test.ops[0], (ast.IsNot, ast.NotEq)) \
-                        and '%s.arcs' % other in norm(s.test) and any(
+                        and '%s.arcs' % other in xn(s.test) and any(
                             isinstance(b, ast.Return) and isinstance(b.value, ast.Constant) and b.value.value is False for b in s.body):
                     ok3 = True
         nexts = [n for n in cfg.nodes if n.kind in ('next0', 'next') and loops and n.stmt is loops[0]]
